@@ -53,6 +53,10 @@ pub fn c06_configs(tier: Tier) -> Vec<OutCfg> {
             vec![SK::Q1Big, SK::Q1],
             vec![SK::Q1, SK::Q1Big, SK::Q2Rel],
             vec![SK::Q1BigId(5), SK::Q1Id(5)],
+            // a streamed publish whose header cannot be written must not leave the sink in "payload owed" state
+            vec![SK::Stream { qos: 1, size: 6, plan: 9 }, SK::Q1],
+            vec![SK::Stream { qos: 0, size: 6, plan: 9 }, SK::Q1, SK::Q0],
+            vec![SK::Q1Id(5), SK::Stream { qos: 1, size: 6, plan: 8 }, SK::Q1],
             vec![SK::Q1BigId(5), SK::Q1Id(5), SK::Q1Id(5)],
             vec![SK::Q2Hold, SK::Q1, SK::Q1],
             vec![SK::Q2Rel, SK::Q1Loop(2)],
@@ -75,12 +79,13 @@ pub fn c06_configs(tier: Tier) -> Vec<OutCfg> {
             v.push(OutCfg {
                 ep,
                 cap: 8,
-                senders,
+                senders: senders.clone(),
                 cancels: 0,
                 batch: true,
                 bp: 0,
                 peer: PeerMode::Correct,
-                judge: J_ROUTING | J_LIVENESS,
+                // streamed publishes are not attributed by the routing oracle
+                judge: if senders.iter().any(|k| matches!(k, SK::Stream { .. })) { J_LIVENESS } else { J_ROUTING | J_LIVENESS },
                 prologue: 0,
                 peer_max_packet: if big { 100 } else { 0 },
                 inbound: 0,
